@@ -8,14 +8,20 @@ package main
 
 import (
 	"bytes"
+	"context"
 	"crypto/sha256"
 	"encoding/json"
 	"errors"
+	"flag"
 	"fmt"
 	"os"
+	"os/exec"
 	"path/filepath"
+	"runtime"
 	"sort"
 	"strings"
+	"sync/atomic"
+	"syscall"
 	"time"
 
 	"github.com/dolthub/dolt/go/store/hash"
@@ -110,7 +116,7 @@ func mkVariant(bt, other *jrnkit.Built, v variant) []byte {
 		return []byte{}
 	case "trunc":
 		return idx[:min(v.At, len(idx))]
-	case "flip":
+	case "flip", "fliphigh":
 		if v.At < len(idx) {
 			idx[v.At] ^= 1 << uint(v.Bit%8)
 		}
@@ -187,6 +193,114 @@ func bootView(dir string, bt *jrnkit.Built, canWrite bool, maxNovel int) (v view
 	return
 }
 
+// ---------------------------------------------------------------- isolation
+//
+// Index damage that passes validation can make a read allocate gigabytes or (reported by the C10
+// builder) hang.  Variants that touch the unprotected offset/length bytes with large values are
+// therefore bootstrapped in a child process under an address-space limit and a deadline; every
+// other variant runs in-process under a watchdog (deadline + heap ceiling) that turns a runaway
+// open into a reported violation instead of taking the check down.
+
+type isoReq struct {
+	Dir      string   `json:"dir"`
+	CW       bool     `json:"cw"`
+	MaxNovel int      `json:"maxNovel"`
+	B        uint32   `json:"B"`
+	Addrs    []string `json:"addrs"`
+}
+
+type isoResp struct {
+	Class string            `json:"class"`
+	Root  string            `json:"root"`
+	Reads map[string]string `json:"reads"`
+}
+
+func workerMain(reqJSON string) {
+	var rq isoReq
+	if err := json.Unmarshal([]byte(reqJSON), &rq); err != nil {
+		os.Exit(3)
+	}
+	lim := syscall.Rlimit{Cur: 6 << 30, Max: 6 << 30}
+	syscall.Setrlimit(syscall.RLIMIT_AS, &lim)
+	nbs.VerifJrnSetBuffSize(rq.B)
+	bt := &jrnkit.Built{Data: map[hash.Hash][]byte{}}
+	for _, a := range rq.Addrs {
+		bt.Data[hash.Parse(a)] = nil
+	}
+	v := bootView(rq.Dir, bt, rq.CW, rq.MaxNovel)
+	out := isoResp{Class: v.Class, Root: v.Root.String(), Reads: map[string]string{}}
+	for h, r := range v.Reads {
+		out.Reads[h.String()] = r
+	}
+	b, _ := json.Marshal(out)
+	os.Stdout.Write(b)
+}
+
+func isolatedView(dir string, bt *jrnkit.Built, cw bool, mx int) view {
+	rq := isoReq{Dir: dir, CW: cw, MaxNovel: mx, B: effB(bt.Hist)}
+	for h := range bt.Data {
+		rq.Addrs = append(rq.Addrs, h.String())
+	}
+	rj, _ := json.Marshal(rq)
+	exe, _ := os.Executable()
+	ctx, cancel := context.WithTimeout(context.Background(), time.Duration(e.N(6, 10))*time.Second)
+	defer cancel()
+	cmd := exec.CommandContext(ctx, exe, "-worker", "-req", string(rj))
+	out, err := cmd.Output()
+	v := view{Reads: map[hash.Hash]string{}}
+	if ctx.Err() != nil {
+		v.Class = "child-timeout"
+		return v
+	}
+	if err != nil {
+		v.Class = "child-died"
+		return v
+	}
+	var rs isoResp
+	if json.Unmarshal(out, &rs) != nil {
+		v.Class = "child-died"
+		return v
+	}
+	v.Class = rs.Class
+	v.Root = hash.Parse(rs.Root)
+	for a, r := range rs.Reads {
+		v.Reads[hash.Parse(a)] = r
+	}
+	return v
+}
+
+var wdVariant atomic.Value // string: the variant being evaluated
+var wdStart atomic.Int64
+
+func startWatchdog() {
+	go func() {
+		for {
+			time.Sleep(200 * time.Millisecond)
+			st := wdStart.Load()
+			if st == 0 {
+				continue
+			}
+			var ms runtime.MemStats
+			runtime.ReadMemStats(&ms)
+			tooLong := time.Since(time.Unix(0, st)) > 90*time.Second
+			tooBig := ms.HeapAlloc > 6<<30
+			if tooLong || tooBig {
+				what := fmt.Sprintf("bootstrapping this index did not finish within 90 s (heap %d MiB)", ms.HeapAlloc>>20)
+				if tooBig {
+					what = fmt.Sprintf("bootstrapping this index drove the heap to %d MiB", ms.HeapAlloc>>20)
+				}
+				cs, _ := wdVariant.Load().(string)
+				if cs == "" {
+					cs = "null"
+				}
+				e.Rep.Violate("journal-index-runaway-open", what, json.RawMessage(cs))
+				e.Finish()
+				os.Exit(0)
+			}
+		}
+	}()
+}
+
 func implGet(b nbs.VerifJrnBoot, h hash.Hash) string {
 	for _, r := range b.Novel {
 		if bytes.Equal(r.Addr, h[:]) {
@@ -245,7 +359,25 @@ func evalVariant(bt, other *jrnkit.Built, v variant, dir string, base map[bool]v
 	jp, ip := filepath.Join(dir, nbs.VerifJrnFileName), filepath.Join(dir, nbs.VerifJrnIndexFileName)
 	j0, i0 := sha(jp), sha(ip)
 	mx := bt.Hist.MaxNovel
-	got := bootView(dir, bt, v.CW, mx)
+	wdVariant.Store(string(canon))
+	wdStart.Store(time.Now().UnixNano())
+	defer wdStart.Store(0)
+	var got view
+	if v.Kind == "fliphigh" {
+		got = isolatedView(dir, bt, v.CW, mx)
+		e.Rep.Hit("isolated:" + v.Field + ":" + got.Class)
+		if d := diffViews(got, base[v.CW]); d != "" {
+			e.Rep.Known("journal-index-offset-unprotected", "the journal index batch checksum covers only the addr16 of each lookup: a flipped bit in a lookup's offset/length passes validation and changes which chunks are readable", kc)
+			e.Rep.Hit("isolated-differs:" + strings.SplitN(d, " ", 2)[0])
+		}
+		if !v.CW {
+			if j1, i1 := sha(jp), sha(ip); j1 != j0 || i1 != i0 {
+				e.Rep.Violate("journal-readonly-modifies-files/"+v.Kind, "read-only bootstrap changed files", kc)
+			}
+		}
+		return
+	}
+	got = bootView(dir, bt, v.CW, mx)
 	e.Rep.Hit("boot:" + strings.SplitN(got.Class, ":", 2)[0])
 	if got.Class == "ok" && got.Idxd > 0 {
 		e.Rep.Hit("index-accepted")
@@ -403,6 +535,14 @@ func runHistory(h, h2 jrnkit.History, only *variant, r *hx.Rng, n int) {
 			vs = append(vs, variant{Kind: "flip", At: at, Bit: r.Intn(8), Field: f.Name, CW: r.Bool()})
 		}
 	}
+	// high-order bytes of the unprotected length (multi-GiB allocation) and offset: isolated child
+	nhigh := map[string]int{}
+	for _, f := range fs {
+		if (f.Name == "lookup.length" || f.Name == "lookup.offset") && nhigh[f.Name] < e.N(1, 2) && r.Chance(1, 3) {
+			nhigh[f.Name]++
+			vs = append(vs, variant{Kind: "fliphigh", At: f.Off + r.Intn(2), Bit: 4 + r.Intn(4), Field: f.Name, CW: false})
+		}
+	}
 	sort.SliceStable(vs, func(i, j int) bool { return vs[i].Kind < vs[j].Kind })
 	for _, v := range vs {
 		t1 := time.Now()
@@ -414,8 +554,19 @@ func runHistory(h, h2 jrnkit.History, only *variant, r *hx.Rng, n int) {
 }
 
 func main() {
+	worker := flag.Bool("worker", false, "internal: isolated bootstrap")
+	req := flag.String("req", "", "internal: isolated bootstrap request")
+	for _, a := range os.Args[1:] {
+		if a == "-worker" {
+			flag.Parse()
+			_ = worker
+			workerMain(*req)
+			return
+		}
+	}
 	e = hx.Init("journalindex", "C04")
 	defer e.Finish()
+	startWatchdog()
 	fastDir = e.Scratch
 	if d, err := os.MkdirTemp("/dev/shm", "verif-journalindex-"); err == nil && os.Getenv("VERIF_NO_SHM") == "" {
 		fastDir = d
